@@ -107,7 +107,7 @@ class Path:
 
 
 class State:
-    __slots__ = ('env', 'heap', 'conds', 'events', 'known', 'visits')
+    __slots__ = ('env', 'heap', 'conds', 'events', 'known', 'visits', 'occ')
 
     def __init__(self):
         self.env = {}
@@ -116,6 +116,7 @@ class State:
         self.events = []
         self.known = {}
         self.visits = {}
+        self.occ = {}
 
     def fork(self):
         s = State()
@@ -125,13 +126,16 @@ class State:
         s.events = list(self.events)
         s.known = dict(self.known)
         s.visits = dict(self.visits)
+        s.occ = dict(self.occ)
         return s
 
 
 class SymEx:
     def __init__(self, prog, inline_depth=4, inline_max_blocks=60, inline_pred=None, loop_visits=2,
-                 max_paths=MAX_PATHS):
+                 max_paths=MAX_PATHS, eff=None):
         self.prog = prog
+        self.eff = eff
+        self._pure = {}
         self.inline_depth = inline_depth
         self.inline_max_blocks = inline_max_blocks
         self.inline_pred = inline_pred
@@ -478,8 +482,8 @@ class SymEx:
                 return None
             if m is not None:
                 return finish(m)
-            val = ('call', ext, tuple(args))
-            st.events.append(('call', ext, tuple(args), line, b.nid, self.place_key(b, st, dest)))
+            val = self.call_term(st, ext, tuple(args), [])
+            st.events.append(('call', ext, tuple(args), line, b.nid, self.place_key(b, st, dest), val))
             return finish(val)
         # ---- in-crate
         if len(targets) == 1 and self.should_inline(targets[0], depth):
@@ -493,9 +497,53 @@ class SymEx:
             return None
         # opaque in-crate call (trait fan-out or too large)
         cname = targets[0] if len(targets) == 1 else (callee_raw or name)
-        val = ('call', cname, tuple(args))
-        st.events.append(('call', cname, tuple(args), line, b.nid, self.place_key(b, st, dest)))
+        val = self.call_term(st, cname, tuple(args), targets)
+        st.events.append(('call', cname, tuple(args), line, b.nid, self.place_key(b, st, dest), val))
         return finish(val)
+
+    # the intrusive list, its cache-level wrappers and the sketch are primitives of the cache-level analysis
+    OPAQUE_MODULES = ('common::deque::', 'common::frequency_sketch::', 'unsync::deques::', 'common::concurrent::deques::',
+                      '<common::deque::')
+
+    PURE_EXT_LAST = {'checked_add', 'checked_sub', 'from_secs', 'from_millis', 'from_micros', 'from_nanos', 'hash_one', 'eq', 'ne',
+                     'ptr_eq', 'max', 'min', 'next_power_of_two', 'count_ones', 'try_into', 'as_secs', 'as_millis', 'pow',
+                     'saturating_mul', 'is_empty', 'compose', 'decompose', 'decompose_tag', 'decompose_ptr', 'discriminant',
+                     'wrapping_add', 'wrapping_mul', 'saturating_add', 'saturating_sub', 'partial_cmp', 'cmp', 'lt', 'le', 'gt', 'ge'}
+
+    def is_pure(self, name, targets):
+        key = (name, tuple(targets))
+        if key in self._pure:
+            return self._pure[key]
+        if targets:
+            pure = True
+            if self.eff is None:
+                pure = False
+            else:
+                for tg in targets:
+                    for r in self.prog.reachable_from([tg]):
+                        d = self.eff.direct.get(r, ())
+                        if any(e[0] == 'write' for e in d) or self.eff.mut_params.get(r):
+                            pure = False
+                        if any(e[0] == 'call' and (e[1] == 'std::time::Instant::now' or e[1].startswith('crossbeam_channel::')
+                                                   or e[1].startswith('std::collections::HashMap::') or e[1].startswith('dashmap::'))
+                               for e in d):
+                            pure = False
+        else:
+            pure = str(name).split('::')[-1] in self.PURE_EXT_LAST
+        self._pure[key] = pure
+        return pure
+
+    def call_term(self, st, name, args, targets):
+        """Term for an opaque call result. Impure calls get an occurrence index (per path) so that two
+        evaluations are different values; pure ones are structurally shared."""
+        if self.is_pure(name, targets):
+            return ('call', name, args)
+        k = (name, args)
+        n = st.occ.get(k, 0)
+        st.occ[k] = n + 1
+        if n == 0:
+            return ('call', name, args)
+        return ('call', name, args, n)
 
     def should_inline(self, nid, depth):
         if depth >= self.inline_depth:
@@ -505,6 +553,8 @@ class SymEx:
             r = self.inline_pred(nid, tg, depth)
             if r is not None:
                 return r
+        if nid.startswith(self.OPAQUE_MODULES):
+            return False
         if len(tg.blocks) > self.inline_max_blocks:
             return False
         if tg.loops():
@@ -625,7 +675,18 @@ class SymEx:
         if last == 'unwrap_or':
             resume(st, payload if is_some else args[1]); return
         if last == 'unwrap_or_default':
-            resume(st, payload if is_some else ('c', 0)); return
+            if is_some:
+                resume(st, payload); return
+            dty = b.local_ty(t['dest']['l'])['s'] if not t['dest'].get('p') else ''
+            if dty.startswith('std::option::Option<'):
+                resume(st, NONE)
+            elif dty == 'bool':
+                resume(st, ('c', False))
+            elif dty in ('u8', 'u16', 'u32', 'u64', 'u128', 'usize', 'i8', 'i16', 'i32', 'i64', 'i128', 'isize'):
+                resume(st, ('c', 0))
+            else:
+                resume(st, ('default', dty))
+            return
         if last == 'ok_or':
             resume(st, ('aggr', RESULT, 'Ok', (payload,)) if is_some else ('aggr', RESULT, 'Err', (args[1],))); return
         if last == 'take':
